@@ -91,6 +91,10 @@ pub struct WorldCfg {
     /// traders 1 and 2 get long addresses that differ only in their last byte (chain addresses are 40-60 bytes with a shared prefix)
     #[serde(default)]
     pub long_names: bool,
+    /// the deployment's owner hands every vAMM to the insurance fund (the fund is then their admin, as in the repository's
+    /// shutdown fixture): the fund may open / close them whatever insurance fund they name
+    #[serde(default)]
+    pub fund_owns_vamms: bool,
 }
 
 impl WorldCfg {
@@ -129,6 +133,7 @@ impl WorldCfg {
             orphan: false,
             poor_unlimited_allowance: false,
             long_names: false,
+            fund_owns_vamms: false,
         }
     }
 }
@@ -719,6 +724,17 @@ impl World {
             stray_funding_coins: false,
             vamm_admins: vec![],
         };
+        w.vamm_admins = vec![w.owner.clone(); w.vamms.len()];
+        if cfg.fund_owns_vamms {
+            for v in 0..w.vamms.len() {
+                let a = w.vamms[v].clone();
+                let owner = w.owner.clone();
+                let r = w.exec(&owner, &a, &vamm::ExecuteMsg::UpdateOwner { owner: w.fund.to_string() }, &[], None);
+                if r.ok {
+                    w.vamm_admins[v] = w.fund.to_string();
+                }
+            }
+        }
         // a deployment is used from the block after its creation (see DESIGN C15)
         w.created_at = (w.now(), w.height());
         w.next_block(15, 1);
